@@ -153,17 +153,27 @@ Section ReadProofs.
     exists r, In r (reads s) /\ r_ctx r = ctx.
   Definition K9 (s : netR) := forall r r', In r (reads s) -> In r' (reads s) ->
     r_ctx r = r_ctx r' -> r = r'.
+  (* commit indexes only grow from a request to now, and from an older request to a
+     newer one (the list is newest first) *)
+  Definition K10 (s : netR) := forall r j, In r (reads s) ->
+    hcommit (nodes (r_snap r) j) <= hcommit (nodes (baseR s) j).
+  Definition K11 (s : netR) := forall pre r post j r', reads s = pre ++ r :: post -> In r' post ->
+    hcommit (nodes (r_snap r') j) <= hcommit (nodes (r_snap r) j).
 
   Record invR (s : netR) : Prop := {
-    r_0 : invK0 (baseR s) (lcommit s); r_6 : K6 s; r_7 : K7 s; r_8 : K8 s; r_9 : K9 s
+    r_0 : invK0 (baseR s) (lcommit s); r_6 : K6 s; r_7 : K7 s; r_8 : K8 s; r_9 : K9 s;
+    r_10 : K10 s; r_11 : K11 s
   }.
 
   Lemma invR_init : invR (initR).
-  Proof. constructor; [apply invK0_init | | | |]; red; simpl; intros; contradiction. Qed.
+  Proof.
+    constructor; [apply invK0_init | | | | | |]; red; simpl; intros; try contradiction.
+    destruct pre; discriminate.
+  Qed.
 
   Lemma invR_step s l s' : invR s -> stepR s l s' -> invR s'.
   Proof.
-    intros [HK H6 H7 H8 H9] Hstep.
+    intros [HK H6 H7 H8 H9 H10 H11] Hstep.
     inversion Hstep; subst; repeat match goal with x := _ |- _ => subst x end.
     - (* a base step *)
       pose proof (k_0 _ _ HK) as Hinv.
@@ -174,6 +184,8 @@ Section ReadProofs.
       + change (lcommit' s l0) with (lc' (baseR s) (lcommit s) l0). now apply invK0_step.
       + intros r Hr. destruct (H6 r Hr) as (A & B & C). split; [exact A|]. split; [|exact C].
         eapply gext_trans; eauto.
+      + intros r j Hr. cbn [baseR reads] in *. specialize (H10 r j Hr).
+        destruct (hcommit_step V _ _ _ j Hinv H) as (Hm & _). lia.
     - (* a read request *)
       pose proof (k_0 _ _ HK) as Hinv. destruct Hinv as [A1 Aq A2 A3a A3b].
       constructor; cbn [baseR lcommit reads hbrs]; auto.
@@ -192,6 +204,10 @@ Section ReadProofs.
       + intros r r' [<-|Hr] [<-|Hr'] E; cbn [r_ctx] in *; auto.
         * exfalso. eapply H1; eauto.
         * exfalso. eapply H1; eauto.
+      + intros r j [<-|Hr]; cbn [r_snap baseR]; [lia | now apply H10].
+      + intros pre r post j r' Hsplit Hr'. destruct pre as [|r0 pre]; simpl in Hsplit.
+        * injection Hsplit as <- <-. cbn [r_snap]. now apply H10.
+        * injection Hsplit as _ Hsplit. eapply H11; eauto.
     - (* a confirmation *)
       pose proof (k_0 _ _ HK) as Hinv. destruct Hinv as [A1 Aq A2 A3a A3b].
       constructor; cbn [baseR lcommit reads hbrs]; auto.
@@ -219,7 +235,7 @@ Section ReadProofs.
     hcommit (nodes (r_snap r) j) <= r_index r.
   Proof.
     intros Hr Hin (Q & HQi & HQn & HQl & HQw).
-    destruct (invR_reachable s Hr) as [HK H6 H7 H8 H9].
+    destruct (invR_reachable s Hr) as [HK H6 H7 H8 H9 _ _].
     destruct (H6 r Hin) as (HK0 & Hg & Hrole & Hterm & Hown & Hidx).
     set (n0 := r_snap r) in *. set (l0 := r_snapl r) in *. set (i := r_ldr r) in *.
     set (t := r_term r) in *.
@@ -260,10 +276,23 @@ Section ReadProofs.
     commit (nodes (r_snap r) j) <= r_index r.
   Proof.
     intros Hr Hin Hc. pose proof (read_index_not_stale s r j Hr Hin Hc).
-    destruct (invR_reachable s Hr) as [HK H6 _ _ _].
+    destruct (invR_reachable s Hr) as [HK H6 _ _ _ _ _].
     destruct (H6 r Hin) as (HK0 & _).
     pose proof (k_0 _ _ HK0) as Hinv0. destruct Hinv0 as [_ _ _ A3a _].
     destruct (i_commit_bounds _ A3a j). lia.
+  Qed.
+
+  (* readIndex.confirm releases every OLDER pending read together with the confirmed one,
+     at the confirmed read's index: that index also covers what was committed when the
+     older reads were requested *)
+  Theorem read_index_covers_older_reads s pre r post r' j :
+    reachableR s -> reads s = pre ++ r :: post -> In r' post -> confirmed V s r ->
+    hcommit (nodes (r_snap r') j) <= r_index r.
+  Proof.
+    intros Hr Hsplit Hr' Hc.
+    assert (Hin : In r (reads s)) by (rewrite Hsplit; apply in_or_app; right; now left).
+    pose proof (read_index_not_stale s r j Hr Hin Hc).
+    pose proof (r_11 s (invR_reachable s Hr) pre r post j r' Hsplit Hr'). lia.
   Qed.
 
   (* ---- executable side ---- *)
